@@ -25,7 +25,7 @@ func TestVerif_C17_Cluster(t *testing.T) {
 	run.Assume("the node whose collector handled a span is read from the verif.node AdditionalAttributes value on the span as received by the fake Honeycomb; forwarding hops are read from the requests the nodes' peer transports wrote to their sockets")
 	run.Assume("the sampler keeps everything, so every span that reaches a collector is seen at Honeycomb after the graceful stop")
 
-	run.Cases("cluster", run.N(3, 24), func(ci int, rng *verifkit.Rand) {
+	run.Cases("cluster", run.N(3, 150), func(ci int, rng *verifkit.Rand) {
 		nNodes := 2 + rng.Intn(2)
 		cl, err := e2Start(e2Options{Nodes: nNodes})
 		if err != nil {
